@@ -57,7 +57,7 @@ func (v *VerdictWrapper) VerifySignature() error {
 	state := blockchain.GetInstance().GetPriorStates()
 
 	a := types.U32(state.GetTau()) / types.U32(types.EpochLength)
-	if v.Verdict.Age != a && v.Verdict.Age != a-1 {
+	if v.Verdict.Age != a && (a == 0 || v.Verdict.Age != a-1) {
 		return errors.New("bad_judgement_age")
 	}
 
